@@ -266,6 +266,7 @@ def c10(ctx):
     c10_ans(ctx)
     chain_cases(ctx, "c10", ["StateInv"])
     ctx.require("ran_out_of_data")
+    ctx.require("c10_after_precision_change")
     rdec_cases(ctx, "c10")
     ctx.require("invalid_data")
     model_cases(ctx, "leaky", "c10", leaky_cfgs(ctx))
@@ -408,6 +409,7 @@ def c03(ctx):
     model_cases(ctx, "leakybig", "c03", leakybig_cfgs(ctx))
     model_cases(ctx, "floatclass", "c03", floatclass_cfgs(ctx))
     ctx.require("leaky_big_support")
+    ctx.require("converted_models_contract")
 
 
 @prop("C05")
